@@ -1,10 +1,676 @@
-// TEMPORARY main for testing fate.go only; to be replaced by wp-headers.
+// Harness for property C10, domain auth: pkg/auth (GenerateWWWAuthenticate, Sender, Verify) and the
+// connection-fate logic of server_conn.go (fate.go, real sockets).
+//
+// Pipeline cases: for a method set, realm, nonce, credentials, request method and URL the real
+// GenerateWWWAuthenticate -> Sender.Initialize/AddAuthorization -> Verify chain is run; every stage is compared
+// with the Coq model (the model's MD5 / SHA-256 are tables of the real digests supplied in the case line) and the
+// property oracle is evaluated on the implementation: completeness (the client's header is accepted, the scheme
+// picked is enabled) and soundness (every single-field perturbation of the client's inputs is rejected; the only
+// accepted URL deviations are the request-URI form and the SETUP base-URL rule).
 package main
 
-import "verifharness/hx"
+import (
+	"crypto/md5"
+	"crypto/sha256"
+	"encoding/hex"
+	"fmt"
+	"os"
+	"regexp"
+	"sort"
+	"strings"
+
+	"github.com/bluenviron/gortsplib/v5/pkg/auth"
+	"github.com/bluenviron/gortsplib/v5/pkg/base"
+	"github.com/bluenviron/gortsplib/v5/pkg/headers"
+
+	"verifharness/hx"
+)
+
+// ---------- wire ----------
+
+func putS(l *hx.L, s string) { l.Bytes([]byte(s)) }
+
+func putSS(l *hx.L, ss []string) {
+	l.I(len(ss))
+	for _, s := range ss {
+		putS(l, s)
+	}
+}
+
+func putMethods(l *hx.L, ms []auth.VerifyMethod) {
+	if ms == nil {
+		l.N(0)
+		return
+	}
+	l.N(1).I(len(ms))
+	for _, m := range ms {
+		l.I(int(m))
+	}
+}
+
+func md5hex(s string) string    { x := md5.Sum([]byte(s)); return hex.EncodeToString(x[:]) }
+func sha256hex(s string) string { x := sha256.Sum256([]byte(s)); return hex.EncodeToString(x[:]) }
+
+// tables collects the strings whose digests the model may ask for.
+type tables struct{ in map[string]bool }
+
+func newTables() *tables { return &tables{in: map[string]bool{}} }
+
+// addDigest registers everything one digest computation hashes, for both algorithms.
+func (t *tables) addDigest(user, realm, pass, nonce, method, uri string) {
+	a1 := user + ":" + realm + ":" + pass
+	a2 := method + ":" + uri
+	t.in[a1], t.in[a2] = true, true
+	t.in[md5hex(a1)+":"+nonce+":"+md5hex(a2)] = true
+	t.in[sha256hex(a1)+":"+nonce+":"+sha256hex(a2)] = true
+}
+
+func (t *tables) put(l *hx.L) {
+	keys := make([]string, 0, len(t.in))
+	for k := range t.in {
+		keys = append(keys, k)
+	}
+	sort.Strings(keys)
+	for _, h := range []func(string) string{md5hex, sha256hex} {
+		l.I(len(keys))
+		for _, k := range keys {
+			putS(l, k)
+			putS(l, h(k))
+		}
+	}
+}
+
+// ---------- the implementation under test ----------
+
+func mkReq(method base.Method, rawURL string, authz []string) (*base.Request, error) {
+	u, err := base.ParseURL(rawURL)
+	if err != nil {
+		return nil, err
+	}
+	req := &base.Request{Method: method, URL: u, Header: base.Header{}}
+	if authz != nil {
+		req.Header["Authorization"] = base.HeaderValue(authz)
+	}
+	return req, nil
+}
+
+// clientHeader runs the library's client side; ok=false when Initialize fails.
+func clientHeader(www []string, user, pass string, method base.Method, rawURL string) (hdr string, ok bool) {
+	se := &auth.Sender{WWWAuth: base.HeaderValue(www), User: user, Pass: pass}
+	if err := se.Initialize(); err != nil {
+		return "", false
+	}
+	req, err := mkReq(method, rawURL, nil)
+	if err != nil {
+		return "", false
+	}
+	se.AddAuthorization(req)
+	return req.Header["Authorization"][0], true
+}
+
+type params struct {
+	methods []auth.VerifyMethod
+	user    string
+	pass    string
+	realm   string
+	nonce   string
+	method  base.Method
+	url     string
+}
+
+func (p params) String() string {
+	return fmt.Sprintf("methods=%v user=%q pass=%q realm=%q nonce=%q method=%s url=%q", p.methods, p.user, p.pass, p.realm, p.nonce, p.method, p.url)
+}
+
+func verify(p params, authz []string) bool {
+	req, err := mkReq(p.method, p.url, authz)
+	if err != nil {
+		return false
+	}
+	return auth.Verify(req, p.user, p.pass, p.methods, p.realm, p.nonce) == nil
+}
+
+// corrVerify emits the model case for one Verify call. cl = the parameters the header was computed from.
+func corrVerify(ctx *hx.Ctx, p params, authz []string, accepted bool, extra ...params) int {
+	u, err := base.ParseURL(p.url)
+	if err != nil {
+		return -1
+	}
+	t := newTables()
+	uris := map[string]bool{p.url: true}
+	for _, a := range authz {
+		var h headers.Authorization
+		if h.Unmarshal(base.HeaderValue{a}) == nil {
+			uris[h.URI] = true
+		}
+	}
+	for uri := range uris {
+		t.addDigest(p.user, p.realm, p.pass, p.nonce, string(p.method), uri)
+	}
+	var l hx.L
+	l.N(3)
+	putMethods(&l, p.methods)
+	putS(&l, p.user)
+	putS(&l, p.pass)
+	putS(&l, p.realm)
+	putS(&l, p.nonce)
+	putS(&l, string(p.method))
+	putS(&l, u.String())
+	putS(&l, u.RequestURI())
+	putSS(&l, authz)
+	t.put(&l)
+	var il hx.L
+	il.B(accepted)
+	return ctx.Corr(l.String(), il.String())
+}
+
+func corrChallenge(ctx *hx.Ctx, p params, www []string) {
+	var l hx.L
+	l.N(1)
+	putMethods(&l, p.methods)
+	putS(&l, p.realm)
+	putS(&l, p.nonce)
+	var il hx.L
+	putSS(&il, www)
+	ctx.Corr(l.String(), il.String())
+}
+
+func corrClient(ctx *hx.Ctx, www []string, user, pass string, method base.Method, rawURL string, hdr string, ok bool) {
+	if u, err := base.ParseURL(rawURL); err == nil {
+		rawURL = u.CloneWithoutCredentials().String()
+	}
+	t := newTables()
+	for _, v := range www {
+		var a headers.Authenticate
+		if a.Unmarshal(base.HeaderValue{v}) == nil {
+			t.addDigest(user, a.Realm, pass, a.Nonce, string(method), rawURL)
+		}
+	}
+	var l hx.L
+	l.N(2)
+	putSS(&l, www)
+	putS(&l, user)
+	putS(&l, pass)
+	putS(&l, string(method))
+	putS(&l, rawURL)
+	t.put(&l)
+	var il hx.L
+	if !ok {
+		il.N(0)
+	} else {
+		il.N(1)
+		putS(&il, hdr)
+	}
+	ctx.Corr(l.String(), il.String())
+}
+
+// ---------- generators ----------
+
+var allMethodSets = func() [][]auth.VerifyMethod {
+	ms := []auth.VerifyMethod{auth.VerifyMethodBasic, auth.VerifyMethodDigestMD5, auth.VerifyMethodDigestSHA256}
+	out := [][]auth.VerifyMethod{nil}
+	var rec func(cur []auth.VerifyMethod, used int)
+	rec = func(cur []auth.VerifyMethod, used int) {
+		if len(cur) > 0 {
+			out = append(out, append([]auth.VerifyMethod{}, cur...))
+		}
+		for i, m := range ms {
+			if used&(1<<i) == 0 {
+				rec(append(cur, m), used|1<<i)
+			}
+		}
+	}
+	rec(nil, 0)
+	// a few with repetitions
+	out = append(out, []auth.VerifyMethod{1, 1}, []auth.VerifyMethod{0, 2, 0}, []auth.VerifyMethod{2, 1, 2, 0})
+	return out
+}()
+
+const printable = " !#$%&'()*+,-./0123456789:;<=>?@ABCDEFGHIJKLMNOPQRSTUVWXYZ[\\]^_`abcdefghijklmnopqrstuvwxyz{|}~"
+
+func genPrintable(r *hx.Rand, min, max int, exclude string) string {
+	n := r.Range(min, max)
+	var sb strings.Builder
+	for sb.Len() < n {
+		var c string
+		if r.Intn(12) == 0 {
+			c = hx.Pick(r, "ä", "中", "é", "ß", "€")
+		} else {
+			c = string(printable[r.Intn(len(printable))])
+		}
+		if !strings.ContainsAny(c, exclude) {
+			sb.WriteString(c)
+		}
+	}
+	return sb.String()
+}
+
+func genPass(r *hx.Rand) string {
+	switch r.Intn(8) {
+	case 0:
+		return ""
+	case 1:
+		return hx.Pick(r, ":", "a:b", "a:", ":b", "a:b:c", "p,a=s s", "pass\"word", " ", "mypass")
+	case 2:
+		return genPrintable(r, 1, 10, "") + ":" + genPrintable(r, 0, 6, "")
+	default:
+		return genPrintable(r, 0, 16, "") + hx.Pick(r, "", "", "\"")
+	}
+}
+
+func genURL(r *hx.Rand) string {
+	host := hx.Pick(r, "127.0.0.1", "example.com", "10.0.0.5:8554", "[::1]:554", "cam")
+	path := ""
+	for n := r.Intn(4); n > 0; n-- {
+		path += "/" + genPrintableURL(r, 1, 8)
+	}
+	q := ""
+	if r.Intn(3) == 0 {
+		q = "?" + genPrintableURL(r, 1, 6) + "=" + genPrintableURL(r, 0, 6)
+	}
+	switch r.Intn(6) {
+	case 0:
+		return "rtsp://" + host + path + q + "/trackID=" + fmt.Sprint(r.Intn(20))
+	case 1:
+		return "rtsp://" + host + path + "/trackID=" + fmt.Sprint(r.Intn(20)) + hx.Pick(r, "", "x", "/", "?a=1")
+	case 2:
+		return "rtsp://" + host + hx.Pick(r, "", "/", "/trackID=1", "/trackID=", "//trackID=7")
+	default:
+		return hx.Pick(r, "rtsp://", "rtsps://") + host + path + hx.Pick(r, "", "/") + q
+	}
+}
+
+func genPrintableURL(r *hx.Rand, min, max int) string {
+	const a = "abcdefghijklmnopqrstuvwxyzABCDEFGHIJKLMNOPQRSTUVWXYZ0123456789-._~"
+	n := r.Range(min, max)
+	b := make([]byte, n)
+	for i := range b {
+		b[i] = a[r.Intn(len(a))]
+	}
+	return string(b)
+}
+
+var rtspMethods = []base.Method{base.Describe, base.Setup, base.Setup, base.Play, base.Announce, base.Record, base.Options, base.Pause, base.Teardown, base.GetParameter}
+
+func genParams(r *hx.Rand) params {
+	p := params{
+		methods: allMethodSets[r.Intn(len(allMethodSets))],
+		user:    genPrintable(r, 1, 10, ":\""),
+		pass:    genPass(r),
+		realm:   hx.Pick(r, "ipcam", "", genPrintable(r, 0, 12, "\"")),
+		nonce:   hx.Pick(r, hex.EncodeToString(r.Bytes(16)), "", genPrintable(r, 0, 20, "\"")),
+		method:  rtspMethods[r.Intn(len(rtspMethods))],
+		url:     genURL(r),
+	}
+	if r.Intn(20) == 0 { // outside the quantifier: quotes in realm / nonce / user
+		p.realm += "\"x"
+	}
+	if r.Intn(30) == 0 {
+		p.user += hx.Pick(r, ":", "\"")
+	}
+	return p
+}
+
+func inQuantifier(p params) bool {
+	return p.user != "" && !strings.ContainsAny(p.user, ":\"") && !strings.ContainsRune(p.realm, '"') && !strings.ContainsRune(p.nonce, '"') &&
+		!strings.ContainsRune(p.url, '"')
+}
+
+func effective(ms []auth.VerifyMethod) []auth.VerifyMethod {
+	if ms == nil {
+		return []auth.VerifyMethod{auth.VerifyMethodBasic, auth.VerifyMethodDigestMD5}
+	}
+	return ms
+}
+
+func has(ms []auth.VerifyMethod, m auth.VerifyMethod) bool {
+	for _, x := range effective(ms) {
+		if x == m {
+			return true
+		}
+	}
+	return false
+}
+
+// schemeOf: which verification method an Authorization value needs.
+func schemeOf(hdr string) (auth.VerifyMethod, bool) {
+	var h headers.Authorization
+	if strings.HasPrefix(hdr, "Basic ") {
+		return auth.VerifyMethodBasic, true
+	}
+	if err := h.Unmarshal(base.HeaderValue{hdr}); err != nil {
+		return 0, false
+	}
+	if h.Algorithm != nil && *h.Algorithm == headers.AuthAlgorithmSHA256 {
+		return auth.VerifyMethodDigestSHA256, true
+	}
+	return auth.VerifyMethodDigestMD5, true
+}
+
+var reControl = regexp.MustCompile("^(.+/)trackID=[0-9]+$")
+
+// urlRelaxed: the documented deviations between the URL a digest was computed for and the request URL.
+func urlRelaxed(reqURL, digestURL string, isSetup bool) bool {
+	u, err := base.ParseURL(reqURL)
+	if err != nil {
+		return false
+	}
+	if digestURL == u.String() || (strings.HasPrefix(digestURL, "/") && digestURL == u.RequestURI()) {
+		return true
+	}
+	if isSetup {
+		if m := reControl.FindStringSubmatch(u.String()); m != nil && (digestURL == m[1] || digestURL+"/" == m[1]) {
+			return true
+		}
+	}
+	return false
+}
+
+// ---------- one pipeline case ----------
+
+func pipeline(ctx *hx.Ctx, p params, origin string) {
+	ctx.Eval()
+	ctx.Kind("pipeline:" + origin + ":" + fmt.Sprint(len(effective(p.methods))) + "methods")
+	if _, err := base.ParseURL(p.url); err != nil {
+		ctx.Kind("pipeline:unparseable-url")
+		return
+	}
+	inQ := inQuantifier(p)
+
+	// server: challenge
+	www := []string(auth.GenerateWWWAuthenticate(p.methods, p.realm, p.nonce))
+	corrChallenge(ctx, p, www)
+	if len(www) != len(effective(p.methods)) {
+		ctx.Failf(-1, "auth-challenge-count", p.String(), "%d WWW-Authenticate values for %d enabled methods", len(www), len(effective(p.methods)))
+	}
+
+	// client: pick a scheme and compute the header
+	hdr, ok := clientHeader(www, p.user, p.pass, p.method, p.url)
+	corrClient(ctx, www, p.user, p.pass, p.method, p.url, hdr, ok)
+	if !ok {
+		if inQ {
+			ctx.Failf(-1, "auth-complete-no-scheme", p.String(), "Sender.Initialize found no usable challenge in %q", www)
+		}
+		return
+	}
+	scheme, _ := schemeOf(hdr)
+	ctx.Kind(fmt.Sprintf("pipeline:picked:%d", scheme))
+
+	// server: verify
+	acc := verify(p, []string{hdr})
+	idx := corrVerify(ctx, p, []string{hdr}, acc)
+	if inQ {
+		ctx.Nontrivial("pipe/" + p.String())
+		if !has(p.methods, scheme) {
+			ctx.Failf(idx, "auth-scheme-not-enabled", p.String(), "client picked scheme %d which is not enabled", scheme)
+		}
+		// preference: digest over basic, SHA-256 over MD5
+		best := auth.VerifyMethodBasic
+		if has(p.methods, auth.VerifyMethodDigestMD5) {
+			best = auth.VerifyMethodDigestMD5
+		}
+		if has(p.methods, auth.VerifyMethodDigestSHA256) {
+			best = auth.VerifyMethodDigestSHA256
+		}
+		if scheme != best {
+			ctx.Failf(idx, "auth-scheme-preference", p.String(), "client picked scheme %d, best enabled is %d", scheme, best)
+		}
+		if !acc {
+			if scheme == auth.VerifyMethodBasic && strings.ContainsRune(p.pass, ':') {
+				ctx.Failf(idx, "basic-colon-password", p.String(), "correct Basic credentials rejected: the password contains ':' (header %q)", hdr)
+			} else {
+				ctx.Failf(idx, "auth-complete-rejected", p.String(), "correct credentials rejected (header %q)", hdr)
+			}
+		}
+	}
+
+	// soundness: single-field perturbations of what the client computes its header from
+	type pert struct {
+		field string
+		cl    params // what the client believes
+		www   []string
+	}
+	var perts []pert
+	mk := func(field string, f func(c *params)) {
+		c := p
+		f(&c)
+		perts = append(perts, pert{field: field, cl: c})
+	}
+	mk("user", func(c *params) { c.user = mutateStr(ctx.Rng, c.user, ":\"") })
+	mk("password", func(c *params) { c.pass = mutateStr(ctx.Rng, c.pass, "") })
+	mk("realm", func(c *params) { c.realm = mutateStr(ctx.Rng, c.realm, "\"") })
+	mk("nonce", func(c *params) { c.nonce = mutateStr(ctx.Rng, c.nonce, "\"") })
+	mk("method", func(c *params) {
+		for c.method == p.method {
+			c.method = rtspMethods[ctx.Rng.Intn(len(rtspMethods))]
+		}
+	})
+	mk("url", func(c *params) { c.url = mutateURL(ctx.Rng, c.url) })
+	for i := range perts {
+		perts[i].www = []string(auth.GenerateWWWAuthenticate(p.methods, perts[i].cl.realm, perts[i].cl.nonce))
+	}
+	// scheme / algorithm not enabled: the client answers a challenge for every method the server did not enable
+	for _, m := range []auth.VerifyMethod{auth.VerifyMethodBasic, auth.VerifyMethodDigestMD5, auth.VerifyMethodDigestSHA256} {
+		if !has(p.methods, m) {
+			perts = append(perts, pert{field: fmt.Sprintf("scheme-%d", m), cl: p, www: []string(auth.GenerateWWWAuthenticate([]auth.VerifyMethod{m}, p.realm, p.nonce))})
+		}
+	}
+	for _, pt := range perts {
+		ctx.Eval()
+		h2, ok2 := clientHeader(pt.www, pt.cl.user, pt.cl.pass, pt.cl.method, pt.cl.url)
+		if !ok2 {
+			continue
+		}
+		if _, err := base.ParseURL(pt.cl.url); err != nil {
+			continue
+		}
+		sc2, _ := schemeOf(h2)
+		ctx.Kind("perturb:" + pt.field)
+		acc2 := verify(p, []string{h2})
+		idx2 := corrVerify(ctx, p, []string{h2}, acc2)
+		if !inQ || !acc2 {
+			continue
+		}
+		input := p.String() + " perturbed-" + pt.field + ": " + pt.cl.String()
+		switch {
+		case strings.HasPrefix(pt.field, "scheme-"):
+			ctx.Failf(idx2, "auth-sound-disabled-scheme-accepted", input, "credentials for the disabled scheme %d accepted", sc2)
+		case sc2 == auth.VerifyMethodBasic && (pt.field == "realm" || pt.field == "nonce" || pt.field == "method" || pt.field == "url"):
+			// Basic credentials do not depend on these: acceptance is inherent to the scheme
+			ctx.Kind("perturb:basic-independent-field")
+		case pt.field == "url" && urlRelaxed(p.url, urlOf(h2), p.method == base.Setup):
+			ctx.Kind("perturb:url-relaxed-accepted")
+		default:
+			ctx.Failf(idx2, "auth-sound-accepted-wrong-"+pt.field, input, "header %q computed for a different %s was accepted", h2, pt.field)
+		}
+	}
+
+	// tampering with one field of the (digest) header while keeping the response: must be rejected
+	if inQ && scheme != auth.VerifyMethodBasic {
+		var h0 headers.Authorization
+		if h0.Unmarshal(base.HeaderValue{hdr}) == nil {
+			tamper := map[string]func(h *headers.Authorization){
+				"realm":    func(h *headers.Authorization) { h.Realm = mutateStr(ctx.Rng, h.Realm, "\"") },
+				"nonce":    func(h *headers.Authorization) { h.Nonce = mutateStr(ctx.Rng, h.Nonce, "\"") },
+				"username": func(h *headers.Authorization) { h.Username = mutateStr(ctx.Rng, h.Username, "\"") },
+				"uri":      func(h *headers.Authorization) { h.URI = mutateStr(ctx.Rng, h.URI, "\"") },
+				"response": func(h *headers.Authorization) { h.Response = mutateStr(ctx.Rng, h.Response, "\"") },
+				"algorithm": func(h *headers.Authorization) {
+					if h.Algorithm != nil && *h.Algorithm == headers.AuthAlgorithmSHA256 {
+						h.Algorithm = new(headers.AuthAlgorithmMD5)
+					} else {
+						h.Algorithm = new(headers.AuthAlgorithmSHA256)
+					}
+				},
+			}
+			for _, f := range []string{"realm", "nonce", "username", "uri", "response", "algorithm"} {
+				h := h0
+				tamper[f](&h)
+				ht := h.Marshal()[0]
+				ctx.Eval()
+				ctx.Kind("tamper:" + f)
+				acc4 := verify(p, []string{ht})
+				idx4 := corrVerify(ctx, p, []string{ht}, acc4)
+				if acc4 && !(f == "uri" && urlRelaxed(p.url, h.URI, p.method == base.Setup)) {
+					ctx.Failf(idx4, "auth-sound-accepted-tampered-"+f, p.String()+" header="+ht, "header with a tampered %s field (response unchanged) was accepted", f)
+				}
+			}
+		}
+	}
+
+	// the documented URL relaxations must be accepted for digest credentials
+	if inQ && scheme != auth.VerifyMethodBasic {
+		u, _ := base.ParseURL(p.url)
+		alts := []string{}
+		if ru := u.RequestURI(); strings.HasPrefix(ru, "/") {
+			alts = append(alts, ru)
+		}
+		if p.method == base.Setup {
+			if m := reControl.FindStringSubmatch(u.String()); m != nil {
+				alts = append(alts, m[1], strings.TrimSuffix(m[1], "/"))
+			}
+		}
+		for _, alt := range alts {
+			if strings.ContainsRune(alt, '"') {
+				continue
+			}
+			ctx.Eval()
+			ctx.Kind("relaxed-url")
+			h3 := digestHeaderFor(www, p, alt)
+			if h3 == "" {
+				continue
+			}
+			acc3 := verify(p, []string{h3})
+			idx3 := corrVerify(ctx, p, []string{h3}, acc3)
+			if !acc3 {
+				ctx.Failf(idx3, "auth-url-relaxation-rejected", p.String()+" digest-uri="+alt, "digest computed for the documented alternative URI %q rejected", alt)
+			}
+		}
+	}
+
+	// header multiplicity / garbage: never accepted, never a panic
+	for _, hs := range [][]string{nil, {}, {hdr, hdr}, {""}, {"Digest"}, {mutateStr(ctx.Rng, hdr, "")}} {
+		ctx.Eval()
+		ctx.Kind("verify:odd-headers")
+		func() {
+			defer func() {
+				if r := recover(); r != nil {
+					ctx.Failf(-1, "auth-verify-panic", p.String(), "Verify panicked on Authorization %q: %v", hs, r)
+				}
+			}()
+			a := verify(p, hs)
+			corrVerify(ctx, p, hs, a)
+			if a && (len(hs) != 1) {
+				ctx.Failf(-1, "auth-sound-accepted-without-credentials", p.String(), "accepted with Authorization=%q", hs)
+			}
+		}()
+	}
+}
+
+func urlOf(hdr string) string {
+	var h headers.Authorization
+	if h.Unmarshal(base.HeaderValue{hdr}) != nil {
+		return ""
+	}
+	return h.URI
+}
+
+// digestHeaderFor builds, with the library's own header type and digest formula, credentials whose uri field is alt.
+func digestHeaderFor(www []string, p params, alt string) string {
+	se := &auth.Sender{WWWAuth: base.HeaderValue(www), User: p.user, Pass: p.pass}
+	if se.Initialize() != nil {
+		return ""
+	}
+	req, err := mkReq(p.method, p.url, nil)
+	if err != nil {
+		return ""
+	}
+	se.AddAuthorization(req)
+	var h headers.Authorization
+	if h.Unmarshal(req.Header["Authorization"]) != nil || h.Method != headers.AuthMethodDigest {
+		return ""
+	}
+	hf := md5hex
+	if h.Algorithm != nil && *h.Algorithm == headers.AuthAlgorithmSHA256 {
+		hf = sha256hex
+	}
+	h.URI = alt
+	h.Response = hf(hf(p.user+":"+h.Realm+":"+p.pass) + ":" + h.Nonce + ":" + hf(string(p.method)+":"+alt))
+	return h.Marshal()[0]
+}
+
+func mutateStr(r *hx.Rand, s string, exclude string) string {
+	for i := 0; i < 20; i++ {
+		b := []byte(s)
+		switch r.Intn(4) {
+		case 0:
+			b = append(b, printable[r.Intn(len(printable))])
+		case 1:
+			if len(b) > 0 {
+				b = b[:len(b)-1]
+			}
+		case 2:
+			if len(b) > 0 {
+				b[r.Intn(len(b))] = printable[r.Intn(len(printable))]
+			}
+		default:
+			k := r.Intn(len(b) + 1)
+			b = append(b[:k:k], append([]byte{printable[r.Intn(len(printable))]}, b[k:]...)...)
+		}
+		if t := string(b); t != s && !strings.ContainsAny(t, exclude) {
+			return t
+		}
+	}
+	return s + "x"
+}
+
+func mutateURL(r *hx.Rand, u string) string {
+	switch r.Intn(6) {
+	case 0:
+		return u + "/"
+	case 1:
+		return strings.TrimSuffix(u, "/") + "x"
+	case 2:
+		if i := strings.LastIndexByte(u, '/'); i > 8 {
+			return u[:i+1] // base URL (accepted for SETUP of a trackID URL only)
+		}
+		return u + "/a"
+	case 3:
+		if i := strings.LastIndexByte(u, '/'); i > 8 {
+			return u[:i]
+		}
+		return u + "/b"
+	case 4:
+		return strings.Replace(u, "rtsp", "rtsps", 1) + "z"
+	default:
+		return u + "?x=1"
+	}
+}
 
 func main() {
 	ctx := hx.Start("auth")
+	defer ctx.Finish()
+	ctx.Rule("a case is one (method set, realm, nonce, user, password, request method, URL) tuple driven through the real " +
+		"challenge -> client -> Verify pipeline plus its single-field perturbations, or one step of the real-socket connection-fate " +
+		"scenario; non-trivial = inside the quantifier of C10 (user without ':' and '\"', realm/nonce/url without '\"'); distinct by the tuple")
+	if ctx.Prop != "C10" {
+		fmt.Fprintln(os.Stderr, "auth harness: only C10 is checked here")
+		return
+	}
+	if lines := ctx.ReplayLines(); lines != nil {
+		fmt.Fprintln(os.Stderr, "replay: feed the case line to build/auth/modelrun; the failing parameters are printed in the failure input")
+		return
+	}
+
+	// corpus: F9 first, then the upstream test vector shape
+	pipeline(ctx, params{methods: []auth.VerifyMethod{auth.VerifyMethodBasic}, user: "myuser", pass: "my:pass", realm: "ipcam", nonce: "", method: base.Describe, url: "rtsp://127.0.0.1:8554/stream"}, "corpus")
+	for _, ms := range allMethodSets {
+		pipeline(ctx, params{methods: ms, user: "myuser", pass: "mypass", realm: "ipcam", nonce: "f49ac6dd0ba708d4becddc9692d1f2ce", method: base.Setup, url: "rtsp://myhost/mypath?key=val/trackID=3"}, "corpus")
+		pipeline(ctx, params{methods: ms, user: "myuser", pass: "p,a=s s ä中", realm: "IP Camera(21388)", nonce: "abc", method: base.Announce, url: "rtsp://myhost/mypath"}, "corpus")
+	}
+	n := ctx.Budget(500, 25000)
+	for i := 0; i < n; i++ {
+		pipeline(ctx, genParams(ctx.Rng), "random")
+	}
 	runConnFate(ctx)
-	ctx.Finish()
 }
